@@ -3173,6 +3173,11 @@ func (t *Topic) replyDelTopic(sess *Session, asUid types.Uid, msg *ClientComMess
 
 	// This is an indication of a bug.
 	logs.Err.Println("replyDelTopic called by owner (SHOULD NOT HAPPEN!)")
+	// It does happen when the owner's request reaches the hub while the topic is still being loaded
+	// and its owner is not known yet. The request must not stay unanswered: ask to try again.
+	if msg.init {
+		sess.queueOut(ErrLockedReply(msg, types.TimeNow()))
+	}
 	return nil
 }
 
